@@ -187,7 +187,7 @@ struct Exec
 
 	// C06 over the same executions: the adversary drops each packet at most once and only finitely many, so at
 	// quiescence nobody who never closed may still be blocked and everything written must have been delivered
-	bool want_progress = false;
+	bool want_progress = false; bool no_drops = false;
 	void progress_checks()
 	{
 		if (cfg.close_mode != C_NEVER) return; // closing discards what still awaits retransmission (no linger)
@@ -209,7 +209,7 @@ struct Exec
 			if (!adversary_on) return 0;
 			bool is_eof = p.type == sim::aux::packet::type_t::error;
 			if (p.ok_to_drop() && p.type == sim::aux::packet::type_t::payload && points < N) {
-				++points; int c = ch->choose(4, "packet");
+				++points; int c = no_drops ? ch->choose(3, "packet") : ch->choose(4, "packet"); if (no_drops && c) ++c; // without drops: pass / hold 3 ms / hold 100 ms
 				if (c == 1) ++drops; if (c >= 2) ++holds;
 				if (c) lg(fmt("@%lld adversary %s %s seq %llu (%zu bytes)", (long long)now_ns(), c == 1 ? "drops" : (c == 2 ? "holds 3ms" : "holds 100ms"), ptype(p.type), (unsigned long long)p.seq_nr, p.buffer.size()));
 				return c;
